@@ -505,4 +505,8 @@ def gen_plan(seed: int, scale: int = 1):
     }
     if split:
         plan["split"] = split
+    # build-configuration knob (own stream: nothing else shifts): the C nodes of a fleet are built
+    # with one of two compilers at one of five optimisation levels
+    crng = Rng(seed, "cc")
+    plan["cc"] = {"compiler": crng.weighted([("gcc", 3), ("clang", 2)]), "opt": crng.weighted([("-O0", 2), ("-O1", 3), ("-O2", 3), ("-O3", 2), ("-Os", 1)])}
     return plan
